@@ -599,10 +599,13 @@ impl Inner
     }
 }
 
-fn maybe_yield_now()
+/// Declare the operation about to be performed and yield to the scheduler: every
+/// System call is exactly one scheduling point when `cfg.yields` is on.
+fn point(what: &'static str, reads: Vec<String>, writes: Vec<String>)
 {
-    if shuttle::current::get_current_task().is_some()
+    if crate::sched::in_execution()
     {
+        crate::sched::declare(crate::sched::OpDesc::Fs { reads, writes, what });
         shuttle::thread::yield_now();
     }
 }
@@ -634,23 +637,51 @@ impl MemSystem
         self.with(|i| std::mem::take(&mut i.log))
     }
 
-    fn pre(&self, path: &str)
+    fn yields(&self) -> bool
     {
-        let y = self.with(|i| i.cfg.yields && is_shared(&i.cfg, path));
-        if y
-        {
-            maybe_yield_now();
-        }
+        self.with(|i| i.cfg.yields)
     }
 
-    fn pre2(&self, a: &str, b: &str)
+    fn rd(&self, what: &'static str, path: &str)
     {
-        let y = self.with(|i| i.cfg.yields && (is_shared(&i.cfg, a) || is_shared(&i.cfg, b)));
-        if y
+        if self.yields() { point(what, vec![path.to_string()], vec![]); }
+    }
+
+    fn wr(&self, what: &'static str, path: &str)
+    {
+        if self.yields() { point(what, vec![], vec![path.to_string()]); }
+    }
+}
+
+/// Footprint of one mini-shell script (conservative: every named file).
+pub fn script_footprint(lines: &[String]) -> (Vec<String>, Vec<String>)
+{
+    let mut reads = vec![];
+    let mut writes = vec![];
+    for line in lines
+    {
+        let w: Vec<&str> = line.split_whitespace().collect();
+        if w.is_empty() { continue; }
+        match w[0]
         {
-            maybe_yield_now();
+            "cat" =>
+            {
+                let gt = w.iter().position(|x| *x == ">").unwrap_or(w.len());
+                for x in &w[1..gt] { reads.push(x.to_string()); }
+                for x in w.iter().skip(gt + 1) { writes.push(x.to_string()); }
+            },
+            "cp" =>
+            {
+                if w.len() == 3 { reads.push(w[1].to_string()); writes.push(w[2].to_string()); }
+            },
+            "chmod" | "rm" =>
+            {
+                if let Some(x) = w.last() { writes.push(x.to_string()); }
+            },
+            _ => {},
         }
     }
+    (reads, writes)
 }
 
 pub struct MemFile
@@ -708,6 +739,11 @@ impl io::Write for MemFile
                     return Ok(0);
                 }
                 let (id, p) = (*id, *pos);
+                if self.sys.yields()
+                {
+                    let path = self.sys.with(|i| i.fs.map.iter().find_map(|(p, n)| match n { Node::File(f) if f.id == id => Some(p.clone()), _ => None }));
+                    if let Some(path) = path { point("write", vec![], vec![path]); }
+                }
                 let n = self.sys.with(|i| i.do_write(id, p, buf));
                 *pos += n;
                 Ok(n)
@@ -728,7 +764,7 @@ impl System for MemSystem
 
     fn open(&self, path: &str) -> Result<Self::File, SystemError>
     {
-        self.pre(path);
+        self.rd("open", path);
         self.with(|i|
         {
             i.touch(path, false);
@@ -747,14 +783,14 @@ impl System for MemSystem
 
     fn create_file(&mut self, path: &str) -> Result<Self::File, SystemError>
     {
-        self.pre(path);
+        self.wr("create_file", path);
         let id = self.with(|i| i.do_create(path))?;
         Ok(MemFile { sys: self.clone(), mode: FileMode::Write { id, pos: 0 } })
     }
 
     fn create_dir(&mut self, path: &str) -> Result<(), SystemError>
     {
-        self.pre(path);
+        self.wr("create_dir", path);
         self.with(|i|
         {
             i.touch(path, true);
@@ -787,31 +823,41 @@ impl System for MemSystem
 
     fn is_dir(&self, path: &str) -> bool
     {
-        self.pre(path);
+        self.rd("is_dir", path);
         self.with(|i| { i.touch(path, false); i.fs.is_dir(path) })
     }
 
     fn is_file(&self, path: &str) -> bool
     {
-        self.pre(path);
+        self.rd("is_file", path);
         self.with(|i| { i.touch(path, false); i.fs.is_file(path) })
     }
 
     fn list_dir(&self, path: &str) -> Result<Vec<String>, SystemError>
     {
-        self.pre(path);
+        // a listing depends on every descendant: declared as the directory prefix "path/"
+        if self.yields() { point("list_dir", vec![path.to_string(), format!("{}/", path)], vec![]); }
         self.with(|i| { i.touch(path, false); i.fs.list_dir(path) })
     }
 
     fn rename(&mut self, from: &str, to: &str) -> Result<(), SystemError>
     {
-        self.pre2(from, to);
+        if self.yields()
+        {
+            let mut w = vec![from.to_string(), to.to_string()];
+            if self.with(|i| i.fs.is_dir(from))
+            {
+                w.push(format!("{}/", from));
+                w.push(format!("{}/", to));
+            }
+            point("rename", vec![], w);
+        }
         self.with(|i| i.do_rename(from, to))
     }
 
     fn get_modified(&self, path: &str) -> Result<SystemTime, SystemError>
     {
-        self.pre(path);
+        self.rd("get_modified", path);
         self.with(|i|
         {
             i.touch(path, false);
@@ -826,7 +872,7 @@ impl System for MemSystem
 
     fn is_executable(&self, path: &str) -> Result<bool, SystemError>
     {
-        self.pre(path);
+        self.rd("is_executable", path);
         self.with(|i|
         {
             i.touch(path, false);
@@ -841,20 +887,19 @@ impl System for MemSystem
 
     fn set_is_executable(&mut self, path: &str, executable: bool) -> Result<(), SystemError>
     {
-        self.pre(path);
+        self.wr("set_is_executable", path);
         self.with(|i| i.do_set_exec(path, executable))
     }
 
     fn execute_command(&mut self, command_script: CommandScript) -> Vec<Result<CommandLineOutput, SystemError>>
     {
-        // A command reads its (possibly shared) sources: one scheduling point before it
-        // starts; the command itself is atomic (commands of different rules touch disjoint
-        // files, apart from reading sources that must already be final — which is exactly
-        // what the C03 monitor checks at this instant).
-        let y = self.with(|i| i.cfg.yields);
-        if y
+        // One scheduling point before the command starts; the command itself is atomic
+        // (commands of different rules touch disjoint files, apart from reading sources that
+        // must already be final — which is exactly what the C03 monitor checks at this instant).
+        if self.yields()
         {
-            maybe_yield_now();
+            let (r, w) = script_footprint(&command_script.lines);
+            point("command", r, w);
         }
         let text = format!("{}", command_script);
         self.with(|i|
